@@ -39,6 +39,18 @@ CHECKS = {
          "Trusted: ev()/model() in pyprops/c10.py (C semantics: ! > comparison > && > ||). Comparisons are not chained, "
          "'!!' is never generated, conditions never reference later labels (precondition of the statement).",
          "DESIGN.md 3/C10"),
+ "C09": ("hypothesis+nvserve",
+         "metamorphic: abstract program vs its hand expansion (Hypothesis-generated macro/define/equ/repeat/include structure)",
+         "Generated-input search with a metamorphic oracle: Hypothesis builds programs over data directives and "
+         "instruction texts of 7 CPUs wrapped in object/function-like defines, equ, .macro with 0..12 typed parameters "
+         "(numbers, parenthesised expressions, registers, quoted strings with commas/semicolons, label names), macros "
+         "invoking macros, .repeat and .include of generated files; a Python expander performs the substitutions by "
+         "hand; image and global label addresses of both programs, assembled by the sanitized assembler from files, "
+         "must be identical. Fixed families push nesting to 127 levels (with/without parameters) and 40..3000 "
+         "invocations of one macro.",
+         "Trusted: the expander in pyprops/c09.py (textual substitution). Parameter names never occur inside strings; "
+         ".repeat bodies are position independent; a clean capacity diagnostic is accepted for the growing-argument "
+         "chain only.", "DESIGN.md 3/C09"),
 }
 
 NOT_YET = "check not built yet (work in progress; see DESIGN.md section 3)"
